@@ -1,0 +1,13 @@
+//go:build verif
+
+package swamp
+
+// VerifVigilCount forwards to the vigil counter of this swamp instance (see vigil.VerifCount).
+// Compiled only with -tags verif. Not part of the Swamp interface: a harness reaches it with a
+// type assertion on the value SummonSwamp returns.
+func (s *swamp) VerifVigilCount() int64 {
+	if c, ok := s.Vigil.(interface{ VerifCount() int64 }); ok {
+		return c.VerifCount()
+	}
+	return 0
+}
